@@ -21,6 +21,7 @@ import (
 	"os"
 	"os/exec"
 	"path/filepath"
+	"reflect"
 	"regexp"
 	"sort"
 	"strings"
@@ -303,7 +304,7 @@ func collectFloats(v core.Value, into map[uint64]string) {
 	}
 }
 
-type feature struct{ invalidUTF8, escapes, nonASCII, markup, float, date, binary, bigint, multiKey bool }
+type feature struct{ invalidUTF8, escapes, nonASCII, markup, float, date, binary, bigint, multiKey, nilSlice bool }
 
 func features(v core.Value, f *feature) {
 	str := func(s string) {
@@ -335,11 +336,17 @@ func features(v core.Value, f *feature) {
 		f.date = true
 	case values.Binary:
 		f.binary = true
+		if []byte(x) == nil {
+			f.nilSlice = true // values.NewBinary(nil), values.Parse([]byte(nil))
+		}
 	case values.Int:
 		if x > 1<<53 || x < -(1<<53) {
 			f.bigint = true
 		}
 	case *values.Array:
+		if it := reflect.ValueOf(x).Elem().FieldByName("items"); it.IsValid() && it.Kind() == reflect.Slice && it.IsNil() {
+			f.nilSlice = true // values.NewArrayWith(), values.NewArrayOf(nil)
+		}
 		x.ForEach(func(e core.Value, _ int) bool { features(e, f); return true })
 	case *values.Object:
 		if x.Length() > 1 {
@@ -499,7 +506,8 @@ func run(out, tier string, seed int64) {
 		features(v, &ft)
 		tags := []string{}
 		for name, on := range map[string]bool{"invalid-utf8": ft.invalidUTF8, "escapes": ft.escapes, "non-ascii": ft.nonASCII, "markup": ft.markup,
-			"float": ft.float, "datetime": ft.date, "binary": ft.binary, "int>2^53": ft.bigint, "object>=2": ft.multiKey} {
+			"float": ft.float, "datetime": ft.date, "binary": ft.binary, "int>2^53": ft.bigint, "object>=2": ft.multiKey,
+			"built-from-nil-slice (NewArrayWith() / NewArrayOf(nil) / NewBinary(nil))": ft.nilSlice} {
 			if on {
 				tags = append(tags, name)
 				m.Count("feature:" + name)
